@@ -109,7 +109,7 @@ Proof. intros H A a b L. apply A. lia. Qed.
 
 Ltac fixed_cfg :=
   unfold cfg_fixed;
-  cbn [c_member_items c_link_branch c_iris_lists c_url_isnil c_conv_err c_with_driven c_nil_guards].
+  cbn [c_member_items c_link_branch c_iris_lists c_url_isnil c_conv_err c_with_driven c_nil_guards c_url_items].
 
 (* ================================================================================================================
    From here to the end of module EqGP every lemma is GENERIC in the IRI comparison [ideq a b cs] = a.Equals(b, cs)
@@ -197,6 +197,11 @@ Section Ext.
       + intros x Hx. destruct (view_items ofs) as [ol|] eqn:E2; [|destruct Hx].
         apply in_lsize in Hx. apply view_items_size in E2. lia.
       + eapply agree_le; [|exact A]. apply view_items_size in E. rewrite esize_items. lia.
+    - (* url: through rec since the fix, on a strictly smaller pair *)
+      destruct (c_url_items cfg); [|reflexivity].
+      destruct (is_nil (get_item F_URL wfs)) eqn:En; [reflexivity|]. apply A.
+      assert (H : get_item F_URL wfs <> INil) by (intro H0; rewrite H0 in En; discriminate).
+      apply get_item_size in H. pose proof (get_item_size_le F_URL ofs). lia.
   Qed.
 
   Lemma all_cmp_ext cs ofs wfs :
@@ -692,7 +697,8 @@ Proof.
   - destruct (view_items fs) as [l|] eqn:E; [|reflexivity].
     apply itemcoll_refl; try reflexivity. intros x Hx. apply IH. apply in_lsize in Hx.
     apply view_items_size in E. lia.
-  - destruct (is_nil (get_item F_URL fs)); [reflexivity|]. rewrite ideq_refl. reflexivity.
+  - destruct (is_nil (get_item F_URL fs)) eqn:En; [reflexivity|]. apply IH. apply get_item_size.
+    intro H0. rewrite H0 in En. discriminate.
   - destruct (vtime_is_zero _); [reflexivity|]. unfold time_equal. rewrite !Z.eqb_refl. reflexivity.
   - destruct (_ =? 0)%Z; [reflexivity|]. rewrite Z.eqb_refl. reflexivity.
   - destruct (_ =? 0)%N; [reflexivity|]. rewrite N.eqb_refl. reflexivity.
@@ -1044,15 +1050,13 @@ Proof.
   intros Hn He. simpl. apply Z.eqb_neq in Hn. apply Z.eqb_neq in He. rewrite Hn, He. reflexivity.
 Qed.
 
+(* url: sensitive like every other item-valued property - whenever ItemsEqual tells the two values apart; the
+   property counts as set when it is not nil-like (its guard is IsNil, where the siblings have != nil) *)
 Lemma cmp_url_rejects fs gs :
   is_nil (get_item F_URL gs) = false ->
-  (is_nil (get_item F_URL fs) = true \/
-   ideq (lnk (get_item F_URL gs)) (lnk (get_item F_URL fs)) false = false) ->
+  ieq (get_item F_URL fs) (get_item F_URL gs) = Ok false ->
   cmp_one cfg_fixed ieq CUrl fs gs = Ok false.
-Proof.
-  intros Hn He. simpl. fixed_cfg. rewrite Hn. destruct (is_nil (get_item F_URL fs)); [reflexivity|].
-  destruct He as [He|He]; [discriminate|]. rewrite He. reflexivity.
-Qed.
+Proof. intros Hn He. simpl. fixed_cfg. rewrite Hn. exact He. Qed.
 
 (* ItemsEqual on two IRIs, on an unset and a set property *)
 Lemma ieq_iris p a q b : is_nil (IIri p a) = false -> is_nil (IIri q b) = false ->
